@@ -77,14 +77,15 @@ type world struct {
 	signed     map[string]int  // (instance height, object root, domain) -> times signed
 	certified  map[string]bool // (height, value hash) for which the harness delivered a quorum-backed decision
 	reported   map[string]bool
-	sigEntries int // harness calls in which at least one SignBeaconObject happened
+	sigEntries int // harness calls in which at least one SignBeaconObject happened (pre-consensus proofs: once per slot)
+	preSlots   map[phase0.Slot]bool
 	nontrivial bool
 }
 
 func newWorld(role string, n int, res *vh.Result, beh string) *world {
 	kit := rk.New(rk.Options{N: n, Blinded: role == rk.ProposerBlinded, NContrib: 2})
 	w := &world{kit: kit, role: role, br: rk.BeaconRole(role), q: int(kit.Share.Quorum), n: n, res: res, beh: beh,
-		signed: map[string]int{}, certified: map[string]bool{}, reported: map[string]bool{}}
+		signed: map[string]int{}, certified: map[string]bool{}, reported: map[string]bool{}, preSlots: map[phase0.Slot]bool{}}
 	w.valChk = refValueCheck(kit, role)
 	return w
 }
@@ -220,7 +221,15 @@ func (w *world) checkSigs(c ctx, before snap) {
 		}
 	}
 	if any {
-		w.sigEntries++
+		// spec bookkeeping: the pre-consensus proof of a slot is one entry however often the slot is started
+		if c.kind == "StartDuty" {
+			if !w.preSlots[c.startSlot] {
+				w.preSlots[c.startSlot] = true
+				w.sigEntries++
+			}
+		} else {
+			w.sigEntries++
+		}
 	}
 }
 
